@@ -265,6 +265,16 @@ fn gen_c07(seed: u64, tier: Tier) -> ResolvePlan {
     let nq = r.range(1, 6) as usize;
     let qs = universe::interesting_questions(&u, &mut r, nq);
     let small_cache = knobs.cache_size < 512;
+    let mut qs = qs;
+    // histories: ask about a name again, for another type, so that the second
+    // question meets what the first left in the cache
+    for _ in 0..r.range(0, 2) {
+        if !qs.is_empty() && qs.len() < 7 {
+            let (name, _) = r.pick(&qs).clone();
+            let qtype = (*r.pick(&["A", "AAAA", "MX", "TXT", "A"])).to_string();
+            qs.push((name, qtype));
+        }
+    }
     let questions = qs
         .into_iter()
         .map(|(name, qtype)| QuestionPlan {
@@ -319,22 +329,50 @@ pub fn depends_on_dead_delegation(plan: &ResolvePlan, obs: &Observations, q: &QO
         hosts.dedup();
         hosts
     };
+    // only addresses of a family the protocol mode can use count
+    let v4_ok = plan.knobs.protocol_mode != "only-v6";
+    let v6_ok = plan.knobs.protocol_mode != "only-v4";
     let has_address = |host: &str| -> bool {
         let in_cache = q.cache_after.iter().any(|c| {
             c.remaining_ns >= SEC
                 && universe::names_equal(&c.rr.name.to_dotted_string(), host)
-                && matches!(
-                    c.rr.rtype_with_data,
-                    RecordTypeWithData::A { .. } | RecordTypeWithData::AAAA { .. } | RecordTypeWithData::CNAME { .. }
-                )
+                && match c.rr.rtype_with_data {
+                    RecordTypeWithData::A { .. } => v4_ok,
+                    RecordTypeWithData::AAAA { .. } => v6_ok,
+                    RecordTypeWithData::CNAME { .. } => true,
+                    _ => false,
+                }
         });
         let in_local = local.iter().any(|z| {
             z.records.iter().any(|r| {
-                !r.wild && universe::names_equal(&r.owner, host) && matches!(r.rtype(), "A" | "AAAA" | "CNAME")
+                !r.wild
+                    && universe::names_equal(&r.owner, host)
+                    && match r.rtype() {
+                        "A" => v4_ok,
+                        "AAAA" => v6_ok,
+                        "CNAME" => true,
+                        _ => false,
+                    }
             })
         });
         in_cache || in_local
     };
+    // aliases seen in this resolution or held in the cache: their targets are needed too
+    let mut aliases: Vec<(String, String)> = Vec::new();
+    for e in &obs.exchanges[q.exchanges.clone()] {
+        if let Some(m) = &e.reply {
+            for rr in &m.answers {
+                if let RecordTypeWithData::CNAME { cname } = &rr.rtype_with_data {
+                    aliases.push((rr.name.to_dotted_string(), cname.to_dotted_string()));
+                }
+            }
+        }
+    }
+    for c in q.cache_after.iter().chain(q.cache_before.iter()) {
+        if let RecordTypeWithData::CNAME { cname } = &c.rr.rtype_with_data {
+            aliases.push((c.rr.name.to_dotted_string(), cname.to_dotted_string()));
+        }
+    }
     let mut needed: Vec<String> = vec![q.question.name.to_dotted_string()];
     if let Err(ResolutionError::DeadEnd { question }) = &q.result {
         // the resolver says which (alias target) question it could not answer
@@ -342,6 +380,11 @@ pub fn depends_on_dead_delegation(plan: &ResolvePlan, obs: &Observations, q: &QO
     }
     let mut i = 0;
     while i < needed.len() && needed.len() < 64 {
+        for (owner, target) in &aliases {
+            if universe::names_equal(owner, &needed[i]) && !needed.contains(target) {
+                needed.push(target.clone());
+            }
+        }
         let mut anc = Some(needed[i].clone());
         while let Some(a) = anc {
             let hosts = live_ns(&a);
